@@ -9,12 +9,22 @@ from __future__ import annotations
 
 from .. import progcheck, tlc
 
-OBS = ("harness.obs_programs:obs_block_info",)
+OBS = ("harness.obs_programs:obs_block_info", "harness.obs_programs:obs_block_info2")
 
 
 def _corrupt(evs):
     out = []
+    n2 = 0
     for n, e in enumerate(evs):
+        if e["fn"] == "block_info2" and e["calls"] and n2 < 15:
+            inp = e["calls"][-1]["inputs"][n % 2]
+            if n % 3 == 0:
+                inp["shape"] = [v + 1 for v in inp["shape"]]                 # not the block that was announced
+            else:
+                inp["info"]["array_location"][-1] = [inp["info"]["array_location"][-1][0], inp["info"]["array_location"][-1][1] + 1]
+            n2 += 1
+            out.append(e)
+            continue
         if e["fn"] != "block_info" or not e["calls"]:
             continue
         c = e["calls"][-1]
@@ -36,9 +46,9 @@ def _corrupt(evs):
 def plans(tier):
     if tier == "quick":
         return [("d1-mapblocks", 4, 1), ("d2-above-mapblocks", 1, 4), ("d2-win-mapblocks-q", 128, 1), ("d2-below-mapblocks", 1, 4),
-                ("d3-mapblocks-chain", 1, 12)]
+                ("d3-mapblocks-chain", 1, 12), ("d2-mapblocks2", 8, 1)]
     return [("d1-mapblocks", 32, 1), ("d2-above-mapblocks", 3, 1), ("d2-win-mapblocks", 128, 1), ("d2-below-mapblocks", 3, 1),
-            ("d3-mapblocks-chain", 2, 2)]
+            ("d3-mapblocks-chain", 2, 2), ("d2-mapblocks2", 16, 1)]
 
 
 def accept(v):
